@@ -14,7 +14,7 @@ import lib
 from lib import zlit, vlist
 
 LEVEL = "proof"
-UNITS = ["GenBoot", "GenBootImage", "GenBootCtrl"]
+UNITS = ["GenBoot", "GenBootImage", "GenBootCtrl", "GenSharedState"]   # the last is C17's inventory (read only)
 
 # names that are parameters of boot() / MachineController.boot(): given as keywords they are not options
 BOOT_PARAMS = {"hostname", "boot_port", "scamp_binary", "sark_struct", "boot_delay", "post_boot_delay",
@@ -616,6 +616,21 @@ def coq_call(h, c, presets):
         vlist(zlit(int(t)) for t in c["times"]))
 
 
+_COPIES = {}
+
+
+def source_copies_overrides():
+    """The ast fact of Generated/GenBoot.v: does the current boot() update a copy of sv_overrides?  (When it does
+    not, boot_step IS boot_orig_step and the aliasing of dictionary objects between calls must be threaded.)"""
+    if "v" not in _COPIES:
+        try:
+            with open(os.path.join(lib.COQ, "Generated", "GenBoot.v")) as f:
+                _COPIES["v"] = re.search(r"boot_copies_overrides : bool :=\s*false", f.read()) is None
+        except IOError:
+            _COPIES["v"] = True
+    return _COPIES["v"]
+
+
 def ctrl_order(h):
     """The controllers of a history in the order the model creates them: ("mc", key) at the first boot through a
     controller, ("cli", None) for the controller the command-line tool makes."""
@@ -632,7 +647,7 @@ def coq_history(h, presets, step="boot_step"):
     """observe_ops over the operations of the history: OpBoot for boot(), OpNew (at its first use) + OpCtrlBoot for
     MachineController.boot, cli_ops (which looks the flag up in the table dumped from rig_boot.py) for rig-boot."""
     h2, pres = h, presets
-    if step != "boot_step":
+    if step != "boot_step" or not source_copies_overrides():
         # The code as found modified the dictionary object it was given.  The Coq model takes dictionary VALUES,
         # so the aliasing between calls (a caller's dictionary or a preset object passed again) is threaded here.
         h2 = dict(slots=[[list(kv) for kv in s_] for s_ in h["slots"]], calls=h["calls"])
@@ -655,7 +670,7 @@ def coq_history(h, presets, step="boot_step"):
             ops.append("(cli_ops %s %s (clock_of %s) %d)" % (host, flag, vlist(zlit(int(t)) for t in c["times"]),
                                                             len(seen)))
             seen.append(("cli", len(seen)))
-        if step != "boot_step":
+        if step != "boot_step" or not source_copies_overrides():
             ov = c["overrides"]
             if ov is not None and "fresh" not in ov:
                 obj = h2["slots"][ov["slot"]] if "slot" in ov else pres["spin%d" % ov["preset"]]
